@@ -526,10 +526,78 @@ func checkLayout(l Layout, c *vcommon.Ctx) *vcommon.Failure {
 	return nil
 }
 
+// ---------- large sources: the scanner's window must not show ----------
+
+// Large is a printed list of many short strings holding multi-byte characters,
+// long enough to span several scanner windows, behind Pad bytes of layout.
+type Large struct {
+	Unit  int `json:"unit"`  // index into largeUnits
+	KB    int `json:"kb"`    // approximate size of the printed text
+	Pad   int `json:"pad"`   // leading spaces: shifts every character's offset
+	Inner int `json:"inner"` // ASCII filler bytes per element (varies the alignment period)
+}
+
+var largeUnits = []string{"é", "日本", "😀", "aé", "é日😀", "\u2028x", "ß"}
+
+func (l Large) text() string {
+	unit := largeUnits[l.Unit%len(largeUnits)]
+	elem := lisp.String(strings.Repeat("a", l.Inner) + unit).String()
+	n := l.KB*1024/(len(elem)+1) + 1
+	var b strings.Builder
+	b.WriteString("'(")
+	for i := 0; i < n; i++ {
+		if i > 0 {
+			b.WriteByte(' ')
+		}
+		b.WriteString(elem)
+	}
+	b.WriteString(")")
+	return b.String()
+}
+
+func checkLarge(l Large, c *vcommon.Ctx) *vcommon.Failure {
+	if l.KB < 1 || l.KB > 2000 || l.Pad < 0 || l.Inner < 0 {
+		return nil
+	}
+	body := l.text()
+	base, _, _, e0, _, _ := readModes([]byte(body))
+	if e0 != nil {
+		return vcommon.Failf("large/reject", "%d KB of printed strings (unit %q, %d filler bytes) are rejected by the strict reader: %v", l.KB, largeUnits[l.Unit%len(largeUnits)], l.Inner, e0)
+	}
+	if l.KB >= 128 {
+		c.NonTrivial(fmt.Sprintf("%d/%d/%d/%d", l.Unit, l.KB, l.Pad, l.Inner))
+		c.Class("spans-windows")
+	}
+	src := strings.Repeat(" ", l.Pad) + body
+	strict, ft, tol, e1, e2, e3 := readModes([]byte(src))
+	if e1 != nil || e2 != nil || len(e3) != 0 {
+		return vcommon.Failf("large/layout-dependent-reject", "the same %d KB text is accepted as is but rejected behind %d leading spaces: strict %v, formatting %v, fault-tolerant %v", l.KB, l.Pad, e1, e2, e3)
+	}
+	if strict.s != base.s {
+		return vcommon.Failf("large/layout-dependent-tree", "%d leading spaces change the tree read from a %d KB text", l.Pad, l.KB)
+	}
+	if strict.s != ft.s || strict.s != tol.s {
+		return vcommon.Failf("large/modes-tree", "reader modes disagree on a %d KB text (pad %d)", l.KB, l.Pad)
+	}
+	return nil
+}
+
+func genLarge() *rapid.Generator[Large] {
+	return rapid.Custom(func(t *rapid.T) Large {
+		return Large{
+			Unit:  rapid.IntRange(0, len(largeUnits)-1).Draw(t, "unit"),
+			KB:    rapid.SampledFrom([]int{1, 60, 127, 129, 140, 200, 260, 300, 390, 520}).Draw(t, "kb"),
+			Pad:   rapid.IntRange(0, 9).Draw(t, "pad"),
+			Inner: rapid.IntRange(0, 6).Draw(t, "inner"),
+		}
+	})
+}
+
 func TestCheck(t *testing.T) {
 	vcommon.Main(t, "C12",
 		vcommon.S("roundtrip", 160000, 4000000, gen.GenVal(6), checkRoundTrip),
 		vcommon.S("modes", 80000, 2000000, genSource(), checkModes),
 		vcommon.S("layout", 40000, 1000000, genLayout(), checkLayout),
+		vcommon.S("large", 640, 16000, genLarge(), checkLarge),
 	)
 }
